@@ -343,6 +343,45 @@ def register(M):
         return acc, cx.st, cx.live
     R(keys('fold'), fold)
 
+    def try_fold(ex, fr, c, a, st, pc):
+        """Iterator::try_fold / try_for_each with an Option- or Result-returning closure: the closure runs element by
+        element and the first None / Err stops the pull (later guards are conjoined with 'not stopped')"""
+        tail = c.split('try_fold', 1)[-1] if 'try_fold' in c else c.split('try_for_each', 1)[-1]
+        foreach = 'try_for_each' in c
+        if 'Result<' in tail:
+            good = 0
+        elif 'Option<' in tail:
+            good = 1
+        else:
+            raise Unsupported('try_fold over a Try type that is neither Option nor Result: %s' % c)
+        cx = Ctx(ex, st, pc)
+        stop = [S.FALSE]
+        acc = UNIT if foreach else a[1]
+        cl = a[1] if foreach else a[2]
+        broke, resid = S.FALSE, None
+        for g, e in items(cx, as_iter(st, deep(st, a[0])), stop):
+            r = cx.call(cl, [e] if foreach else [acc, e], g)
+            if r is None:
+                continue
+            if not isinstance(r, EnumV):
+                raise Unsupported('try_fold closure result %r' % (r,))
+            ok = S.Eq(r.tag, b64(good))
+            cont, brk = S.And(g, ok), S.And(g, S.Not(ok))
+            p = r.payloads.get(good, UNDEF)
+            if not foreach and p is not UNDEF and len(p) and cont is not S.FALSE:
+                acc = merge(cont, p[0], acc)
+            if brk is not S.FALSE:
+                resid = r if resid is None else merge(brk, r, resid)
+            broke = S.Or(broke, brk)
+            stop[0] = broke
+        if isinstance(a[0], RefV):
+            M.wr(cx.st, a[0], ('spentiter',))
+        final = EnumV(b64(good), {good: (acc,)})
+        if resid is not None and broke is not S.FALSE:
+            final = merge(broke, resid, final)
+        return final, cx.st, cx.live
+    R(keys('try_fold') + '|' + keys('try_for_each'), try_fold)
+
     def collect(ex, fr, c, a, st, pc):
         it = as_iter(st, a[0])
         if 'BTreeMap' in c and it[0] == 'mapiter':
